@@ -99,7 +99,8 @@ class Arom(object):
                 ctx.see("kinds", k)
         for k in range(nspell):
             try:
-                s, order, _, _ = spell(m, rng, variants=rng.random() < 0.5, mix_labels=rng.random() < 0.2)
+                s, order, _, _ = spell(m, rng, variants=rng.random() < 0.5, mix_labels=rng.random() < 0.2,
+                                       spanning=rng.choice(["dfs", "dfs", "dfs", "random"]))
             except ValueError:
                 break
             payload = {"smiles": s, "class": cls, "kinds": sorted(set(k_ for k_ in kind_of if k_)), "src": src}
